@@ -137,13 +137,14 @@ Proof.
   apply labels_at_nh_app in LA as [_ LA]. apply labels_at_nh_app in LA as [LA _]. auto.
 Qed.
 
-Theorem x86_codegen_simulates_int p lc cs n lc' args fuel o :
+Theorem x86_codegen_simulates_int_total p lc cs n lc' args fuel o :
   int_frag p = true -> plain_names p = true -> lin_check_prog p = true ->
   x86_compile p lc = Ok (cs, n, lc') -> asm_wf cs = None ->
-  run_linear fuel p args = o -> good o ->
+  List.length args = n ->
+  run_linear fuel p args = o -> snd o <> OOutOfFuel ->
   exists outer inner, fst (run_x86 outer inner cs args) = o.
 Proof.
-  intros INT PL LIN XC WF RUN G.
+  intros INT PL LIN XC WF.
   unfold x86_compile, x86_compile_with in XC.
   destruct (compile x86_backend p lc) as [[[is n0] lc0]|] eqn:CP; cbn [rbind] in XC; [|discriminate].
   destruct (into_x86_64_routine is n0) as [r|] eqn:RT; cbn [rbind] in XC; [|discriminate].
@@ -153,11 +154,11 @@ Proof.
   cbn in CP. inversion CP; subst is n lc'; clear CP.
   unfold into_x86_64_routine in RT. destruct (setup (List.length (dctx d0))) as [su|] eqn:SU; cbn [rbind] in RT; [|discriminate].
   inversion RT; subst cs; clear RT.
+  intros NARGS RUN G.
   unfold run_linear in RUN. rewrite PD in RUN.
-  destruct (entry_env d0 args) as [e0|] eqn:EE; [|subst o; exfalso; destruct G as [(z & H)|(z & H)]; discriminate].
-  unfold entry_env in EE.
-  assert (LEN : List.length args = List.length (dctx d0)).
-  { apply bind_length in EE. unfold vars in EE. rewrite !map_length in EE. auto. }
+  assert (LEN : List.length args = List.length (dctx d0)) by exact NARGS.
+  destruct (bind_total (vars (dctx d0)) (map VInt args)) as (e0 & EE); [unfold vars; rewrite !map_length; auto|].
+  unfold entry_env in RUN. rewrite EE in RUN.
   assert (LE5 : (List.length args <= 5)%nat).
   { rewrite LEN. destruct (List.length (dctx d0)) as [|[|[|[|[|[|k]]]]]] eqn:K; try lia.
     exfalso. unfold setup in SU. cbn [move_arguments Nat.ltb Nat.leb] in SU. discriminate. }
@@ -228,6 +229,26 @@ Proof.
   assert (AM : find_label (labels im) "asm_main" = Some 6%positive).
   { exact (LA 5%nat "asm_main"%string eq_refl eq_refl). }
   rewrite AM. destruct (Nat.ltb_spec 5 (List.length args)); [lia|]. exact RN.
+Qed.
+
+(* the same for runs that end with a result or an undefined operation (then the argument count is right) *)
+Theorem x86_codegen_simulates_int p lc cs n lc' args fuel o :
+  int_frag p = true -> plain_names p = true -> lin_check_prog p = true ->
+  x86_compile p lc = Ok (cs, n, lc') -> asm_wf cs = None ->
+  run_linear fuel p args = o -> good o ->
+  exists outer inner, fst (run_x86 outer inner cs args) = o.
+Proof.
+  intros INT PL LIN XC WF RUN G.
+  eapply x86_codegen_simulates_int_total; eauto; [|apply good_not_oof; exact G].
+  unfold x86_compile, x86_compile_with in XC.
+  destruct (compile x86_backend p lc) as [[[is n0] lc0]|] eqn:CP; cbn [rbind] in XC; [|discriminate].
+  destruct (into_x86_64_routine is n0) as [r|] eqn:RT; cbn [rbind] in XC; [|discriminate].
+  inversion XC; subst r n0 lc0; clear XC.
+  unfold compile in CP. unfold run_linear in RUN. destruct (pdefs p) as [|d0 rest] eqn:PD; [discriminate|].
+  destruct (translate x86_backend (ptypes p) (d0 :: rest) lc) as [[is' lc1]|] eqn:TR; cbn [rbind] in CP; [|discriminate].
+  cbn in CP. inversion CP; subst is n lc'; clear CP.
+  destruct (entry_env d0 args) as [e0|] eqn:EE; [|subst o; exfalso; destruct G as [(z & H)|(z & H)]; discriminate].
+  unfold entry_env in EE. apply bind_length in EE. unfold vars in EE. rewrite !map_length in EE. auto.
 Qed.
 
 Corollary x86_codegen_correct_int p lc cs n lc' args fuel o :
